@@ -483,3 +483,13 @@ def growth_rule(ctx, run, results):
         if bad:
             run.fail(Finding("C11.R9", q, "; ".join(bad[:3])[:300], "an exponentially growing intermediate factor overflows for long horizons / fast mean reversion, and the series becomes inf or NaN from that step on",
                              file=str(prog.modules[fi.module].path), line=fi.node.lineno))
+
+
+_check_before_histories = check
+
+
+def check(ctx, run):  # noqa: F811
+    """R10: after simulate() the registered buffers are those of the last simulation, one per name (call histories, pfsa/registry.py)"""
+    _check_before_histories(ctx, run)
+    from ..registry import primary_histories_rule
+    primary_histories_rule(ctx, run, "C11.R10")
